@@ -613,6 +613,21 @@ fn gen(_prop: &str, tier: &str, seed: u64) -> Vec<String> {
         let op = *r.pick(&["xv_hex", "xv_b64", "xv_hex", "xv_b64", "xv_text", "xv_auto"]);
         v.push(format!("{}\t{}", op, hex(&val)));
     }
+    // long values: around every power of two and multiple of 3 x 2^k up to 4 KiB (the text protocol of the model run is quadratic in the value length; a printer that works in blocks shows
+    // only here: seeded C15-4 encodes base64 in 1024-byte pieces, each padded)
+    for base in [255usize, 256, 511, 512, 768, 1023, 1024, 1025, 1536, 2047, 2048, 3072, 4095] {
+        for d in [0usize, 1, 2] {
+            let n = base + d;
+            let val = r.bytes(n);
+            for op in ["xv_hex", "xv_b64", "xv_auto"] {
+                v.push(format!("{}\t{}", op, hex(&val)));
+            }
+        }
+    }
+    for _ in 0..10 * scale {
+        let n = r.range(1000, 5_000) as usize;
+        v.push(format!("xv_b64\t{}", hex(&r.bytes(n))));
+    }
     // parser: every string over a small alphabet after each prefix, then generated and mutated texts
     for pre in ["0x", "0s", "", "0", "0X", "0S"] {
         let alpha = ["0", "a", "F", "+", "-", "=", "g", "/", "é"];
